@@ -12,6 +12,7 @@ import (
 	"bytes"
 	"encoding/binary"
 	"errors"
+	"flag"
 	"fmt"
 	"os"
 	"sort"
@@ -893,9 +894,14 @@ func run(o *hx.Out, ops []string, desc string) {
 	o.Case("kv", strings.Join(ops, ";"), res, desc)
 }
 
+var mode = flag.String("mode", "engine", "engine: kv.KV on Pebble (default) | db: kv.DB list/range-scan/get across the internal keys")
+
 func main() {
 	f := hx.ParseFlags()
 	o := hx.NewOut(f.OutDir)
+	if *mode == "db" {
+		mainDB(f, o)
+	}
 	r := hx.NewRng(f.Seed)
 	if f.Tier == "thorough" {
 		caseTimeout = 25 * time.Minute
